@@ -459,6 +459,11 @@ def run(ctx):
         'lits': lits, 'flats': flats, 'refs': refs, 'likes': likes, 'likep': like_p, 'likes_len': like_s,
         'typed': typed})
     disagreements = 0
+    for k in (len(lits) // 3, len(lits) - 1):
+        ctx.sample({'rendered_by': lit_meta[k][1], 'dialect': lit_meta[k][2], 'paramstyle': lit_meta[k][3], 'value': lit_meta[k][4], 'text': lit_meta[k][5]})
+    k = len(flats) // 2
+    ctx.sample({'select': shape_str(flat_meta[k][3]), 'dialect': flat_meta[k][1], 'paramstyle': flat_meta[k][2], 'sql': flat_meta[k][4],
+                'arguments': repr(flat_meta[k][5])})
     for b in verdict['lits']['bad']:
         m = lit_meta[b['id'] - 1]
         kind, cls, d, style, s, text = m
